@@ -98,6 +98,20 @@ local macro "sim_bind " f:term ", " ea:term ", " eb:term " with " ma:ident mb:id
    subst h1
    cases oa <;> try exact ⟨rfl, $h2⟩))
 
+local macro "normx_intro" : tactic => `(tactic|
+  (intro a b h
+   rcases a with ⟨c1, hp1, ds1, rs1, lp1, sp1, ⟨q11, q21, q31, q41, q51, q61, q71, q81, q91, q101⟩, mt1, il1, sl1, hl1, lg1, o1, st1, di1⟩
+   rcases b with ⟨c2, hp2, ds2, rs2, lp2, sp2, ⟨q12, q22, q32, q42, q52, q62, q72, q82, q92, q102⟩, mt2, il2, sl2, hl2, lg2, o2, st2, di2⟩
+   simp only [normX, Mach.mk.injEq, Ctx.mk.injEq, true_and, and_true, and_assoc] at h
+   repeat (obtain ⟨h1, h⟩ := h; subst h1)
+   subst h))
+
+/-- replacing the return stack (and logging it) keeps two agreeing machines in agreement -/
+theorem setRs_sim (r : List Frame) (st : RStep) : ∀ a b : Mach, normX a = normX b →
+    normX (({ a with rs := r } : Mach).logStep st) = normX (({ b with rs := r } : Mach).logStep st) := by
+  normx_intro
+  simp [normX, logStep]
+
 theorem popCond_sim (a b : Mach) (h : Rel a b) : SimR (popCond a) (popCond b) := by
   unfold popCond
   sim_bind popData_sim a b h, a.popData, b.popData with ma mb h2
@@ -137,6 +151,25 @@ theorem straightEff_sim (np : String → Option Prog) (o : Op) (a b : Mach) (h :
     sim_bind popData_sim a b h, a.popData, b.popData with ma mb h2
     rename_i v
     exact swapCellRef_sim idx v ma mb h2
+  case initLocal idx =>
+    sim_bind popData_sim a b h, a.popData, b.popData with ma mb h2
+    rename_i v
+    simp only
+    obtain ⟨_, _, hrs, _, _, _, _, _, _, _, _, hrl, _⟩ := ds_eq ma mb h2
+    rw [hrs, hrl]
+    split
+    · split
+      · exact ⟨rfl, setRs_sim _ _ ma mb h2⟩
+      · exact ⟨rfl, h2⟩
+    · exact ⟨rfl, h2⟩
+  case loadLocal i =>
+    rw [topFrame_sim a b h]
+    split
+    · split
+      · exact pushData_sim _ a b h
+      · exact ⟨rfl, h⟩
+    · exact ⟨rfl, h⟩
+    · exact ⟨rfl, h⟩
   all_goals exact ⟨rfl, h⟩
 
 /-! ### what the control opcodes do, in the evaluator's vocabulary -/
@@ -152,6 +185,27 @@ theorem exec_straight (np : String → Option Prog) (m : Mach) (ip : Nat) (o : O
   case store idx =>
     rcases hp : m.popData with ⟨o, m1⟩
     cases o <;> simp only [hp] <;> rfl
+  case initLocal idx =>
+    rcases hp : m.popData with ⟨o, m1⟩
+    cases o with
+    | ok v =>
+      simp only [hp]
+      cases hrs : m1.rs with
+      | nil => rfl
+      | cons f rest =>
+        simp only []
+        by_cases hg : (f :: rest).length > m1.ctx.rsLen
+        · simp only [hg, if_true]
+        · simp only [hg, if_false]
+    | err e => simp only [hp]
+    | panic s => simp only [hp]
+  case loadLocal i =>
+    cases ht : m.topFrame with
+    | ok f =>
+      simp only []
+      cases hl : f.locals[i]? <;> simp only [] <;> rfl
+    | err e => rfl
+    | panic s => rfl
 
 theorem exec_jumpIfNot (np : String → Option Prog) (m : Mach) (ip : Nat) (rel : Int) :
     exec np m ip (.jumpIfNot rel) = (match popCond m with
@@ -327,6 +381,29 @@ theorem straightEff_ctx (np : String → Option Prog) (m : Mach) (o : Op) (w : W
       simp only []; rw [r2.ctx, r.ctx]
     | err e => exact r.ctx
     | panic s => exact r.ctx
+  case initLocal idx =>
+    obtain ⟨seg, r⟩ := popData_rev m
+    rcases hp : m.popData with ⟨o1, m1⟩
+    rw [hp] at r
+    cases o1 with
+    | ok v =>
+      simp only []
+      split
+      · split
+        · simp only [logStep]; exact r.ctx
+        · exact r.ctx
+      · exact r.ctx
+    | err e => exact r.ctx
+    | panic s => exact r.ctx
+  case loadLocal i =>
+    cases ht : m.topFrame with
+    | ok f =>
+      simp only []
+      cases hl : f.locals[i]? with
+      | some v => obtain ⟨seg, r⟩ := pushData_rev m v w; exact r.ctx
+      | none => rfl
+    | err e => rfl
+    | panic s => rfl
 
 /-! ### one instruction of the VM against one action of the evaluator -/
 
@@ -576,6 +653,46 @@ theorem one_loop {mv ms : Mach} {pc t : Nat} {rel : Int} (v : VOK code mv) (hr :
     simp only at he ⊢
     exact ⟨0, mv, _, rfl, he, by simp, h2, by rw [hip]; exact hd⟩
 
+/-- `Call addr`: a frame is pushed and execution continues at the entry of the word -/
+theorem one_call {mv ms : Mach} {pc addr : Nat} (v : VOK code mv) (hr : Rel mv ms) (hip : mv.ctx.ip = pc)
+    (hop : code[pc]? = some (.call addr)) :
+    Catch np code mv addr (ms.pushReturn { fnAddr := addr, returnTo := pc + 1, locals := [] }) := by
+  obtain ⟨he, v2⟩ := vok_step np v (.call addr) (by rw [hip]; exact hop) (by intro n e; cases e)
+  simp only [exec] at he
+  rw [he] at v2
+  refine ⟨1, _, stepN_one np _ _ he, by simp [setIp, logStep], ?_, v2⟩
+  rw [hip]
+  exact (rel_setIp _ _).trans (pushReturn_sim _ _ ms (rel_bump hr))
+
+/-- `Ret` against `popReturn` -/
+theorem one_ret {mv ms : Mach} {pc t : Nat} (v : VOK code mv) (hr : Rel mv ms) (hip : mv.ctx.ip = pc)
+    (hop : code[pc]? = some .ret) (hd : dmap[pc]? = some t) :
+    match ms.popReturn with
+    | (.ok f, ms1) => Catch np code mv f.returnTo ms1
+    | (.err e, ms1) => Fails np dmap mv (.err e) t ms1
+    | (.panic p, ms1) => Fails np dmap mv (.panic p) t ms1 := by
+  obtain ⟨he, v2⟩ := vok_step np v .ret (by rw [hip]; exact hop) (by intro n e; cases e)
+  have hsim := popReturn_sim _ ms (rel_bump hr)
+  simp only [exec] at he
+  generalize Mach.popReturn { mv with meter := mv.meter + 1 } = ra at hsim he
+  generalize ms.popReturn = rb at hsim ⊢
+  obtain ⟨oa, ma⟩ := ra
+  obtain ⟨ob, mb⟩ := rb
+  obtain ⟨h1, h2⟩ := hsim
+  simp only at h1 h2
+  subst h1
+  cases oa with
+  | ok f =>
+    simp only at he ⊢
+    rw [he] at v2
+    exact ⟨1, _, stepN_one np _ _ he, by simp [setIp, logStep], (rel_setIp ma _).trans h2, v2⟩
+  | err e =>
+    simp only at he ⊢
+    exact ⟨0, mv, _, rfl, he, by simp, h2, by rw [hip]; exact hd⟩
+  | panic p =>
+    simp only at he ⊢
+    exact ⟨0, mv, _, rfl, he, by simp, h2, by rw [hip]; exact hd⟩
+
 end one
 
 /-! ### the simulation statement -/
@@ -595,6 +712,8 @@ theorem compileS_length (st : Stmt) : ∀ (bk : BK) (ce : Option Nat), (compileS
   | brk t => intro bk ce; cases bk <;> rfl
   | caseS a ih => intro bk ce; simp [compileS, size, ih]
   | arm tOf tEndof body ih => intro bk ce; simp [compileS, size, ih]; omega
+  | defn tc ts body ih => intro bk ce; simp [compileS, size, ih]; omega
+  | call t addr ret => intro bk ce; rfl
 
 /-- the instruction at `ipb` is the compiled `break` of token `t`: a jump (or a `Break`, inside a counted loop)
     to `k` opcodes past `endpc` -/
@@ -656,8 +775,8 @@ theorem noBrk_timeout : NoBrk .timeout := fun _ _ e => by cases e
 
 /-- neither a statement evaluated where `break` is not allowed, nor the iterations of a counted loop, ever
     hand a travelling `break` to their surroundings -/
-theorem no_brk_aux (np : String → Option Prog) : ∀ f,
-    (∀ st m r, WFS st false r = true → NoBrk (evalS np f st m)) ∧ (∀ tl a m, NoBrk (doIter np f tl a m)) := by
+theorem no_brk_aux (np : String → Option Prog) (F : FunTab) : ∀ f,
+    (∀ st m r, WFS st false r = true → NoBrk (evalS np F f st m)) ∧ (∀ tl a m, NoBrk (doIter np F f tl a m)) := by
   intro f
   induction f with
   | zero => exact ⟨fun _ _ _ _ => by simp only [evalS]; exact noBrk_timeout, fun _ _ _ => by simp only [doIter]; exact noBrk_timeout⟩
@@ -733,6 +852,18 @@ theorem no_brk_aux (np : String → Option Prog) : ∀ f,
           · intro t m e; cases e
           · exact hb
         · exact noBrk_ok m
+      | defn tc ts body => simp only [evalS]; exact noBrk_ok m
+      | call t addr ret =>
+        simp only [evalS]
+        split
+        · rename_i body ts hF
+          split
+          · exact ofR_noBrk _ _ _ (fun _ m => noBrk_ok m)
+          · intro t m e; cases e
+          · intro t m e; cases e
+          · rename_i r h1 h2 h3
+            intro t m e; exact h2 t m e
+        · intro t m e; cases e
     · simp only [doIter]
       split
       · refine ofR_noBrk _ _ _ (fun more m => ?_)
@@ -758,9 +889,9 @@ theorem ofR_noExit {α : Type} (r : R α) (tok : Nat) (k : α → Mach → Res) 
 theorem noExit_ok (m : Mach) : NoExit (.ok m) := fun _ e => by cases e
 theorem noExit_timeout : NoExit .timeout := fun _ e => by cases e
 
-theorem no_exit_aux (np : String → Option Prog) : ∀ f,
-    (∀ st m k, WFS st k false = true → NoExit (evalS np f st m)) ∧
-    (∀ tl a m, WFS a true false = true → NoExit (doIter np f tl a m)) := by
+theorem no_exit_aux (np : String → Option Prog) (F : FunTab) : ∀ f,
+    (∀ st m k, WFS st k false = true → NoExit (evalS np F f st m)) ∧
+    (∀ tl a m, WFS a true false = true → NoExit (doIter np F f tl a m)) := by
   intro f
   induction f with
   | zero => exact ⟨fun _ _ _ _ => by simp only [evalS]; exact noExit_timeout, fun _ _ _ _ => by simp only [doIter]; exact noExit_timeout⟩
@@ -826,6 +957,17 @@ theorem no_exit_aux (np : String → Option Prog) : ∀ f,
         · exact noExit_ok _
         · rename_i r hne; exact hne
       | arm tOf tEndof body => simp [WFS] at hw
+      | defn tc ts body => simp only [evalS]; exact noExit_ok m
+      | call t addr ret =>
+        simp only [evalS]
+        split
+        · split
+          · exact ofR_noExit _ _ _ (fun _ m => noExit_ok m)
+          · intro m e; cases e
+          · intro m e; cases e
+          · rename_i r h1 h2 h3
+            intro m e; exact h3 m e
+        · intro m e; cases e
     · simp only [doIter]
       have hb := ihE a m true hw
       split
@@ -835,6 +977,451 @@ theorem no_exit_aux (np : String → Option Prog) : ∀ f,
         · exact ofR_noExit _ _ _ (fun _ m => noExit_ok m)
       · exact ofR_noExit _ _ _ (fun _ m => noExit_ok m)
       · exact hb
+
+/-! ### what structural evaluation does to the return stack
+
+Only a call pushes a frame (and pops it when the callee ends); `local` changes the locals of the top frame;
+nothing else touches the return stack. So when a statement completes, the return stack is the one it started
+with, except possibly for the locals of its top frame — in particular the return address in that frame is
+intact, which is what `;` relies on. -/
+
+def SameFrames (a b : List Frame) : Prop :=
+  a.length = b.length ∧ a.tail = b.tail ∧
+    (a.head?.map fun f => (f.fnAddr, f.returnTo)) = (b.head?.map fun f => (f.fnAddr, f.returnTo))
+
+theorem SameFrames.refl (a : List Frame) : SameFrames a a := ⟨rfl, rfl, rfl⟩
+theorem SameFrames.trans {a b c : List Frame} (h1 : SameFrames a b) (h2 : SameFrames b c) : SameFrames a c :=
+  ⟨h1.1.trans h2.1, h1.2.1.trans h2.2.1, h1.2.2.trans h2.2.2⟩
+theorem SameFrames.of_eq {a b : List Frame} (h : a = b) : SameFrames a b := h ▸ SameFrames.refl a
+
+theorem pushData_rs (m : Mach) (c : Cell) : (m.pushData c).2.rs = m.rs := by
+  simp only [pushData]; split <;> (try split) <;> rfl
+theorem popData_rs (m : Mach) : m.popData.2.rs = m.rs := by
+  simp only [popData]; split <;> (try split) <;> rfl
+theorem topData_rs (m : Mach) : m.topData.2.rs = m.rs := by
+  simp only [topData]; split <;> (try split) <;> rfl
+theorem dupData_rs (m : Mach) : m.dupData.2.rs = m.rs := by
+  simp only [dupData]
+  have h1 := topData_rs m
+  rcases ht : m.topData with ⟨o, m1⟩
+  rw [ht] at h1
+  cases o with
+  | ok c => simp only []; rw [pushData_rs, h1]
+  | err e => exact h1
+  | panic p => exact h1
+theorem swapData_rs (m : Mach) : m.swapData.2.rs = m.rs := by
+  simp only [swapData]; split <;> (try split) <;> rfl
+theorem rotData_rs (m : Mach) : m.rotData.2.rs = m.rs := by
+  simp only [rotData]; split <;> (try split) <;> rfl
+theorem overData_rs (m : Mach) : m.overData.2.rs = m.rs := by
+  simp only [overData]; split
+  · split
+    · rw [pushData_rs]; rfl
+    · rfl
+  · rfl
+theorem swapCellRef_rs (m : Mach) (idx : Nat) (v : Cell) : (m.swapCellRef idx v).2.rs = m.rs := by
+  simp only [swapCellRef]; split <;> (try split) <;> rfl
+theorem popSpecial_rs (m : Mach) : m.popSpecial.2.rs = m.rs := by
+  simp only [popSpecial]; split <;> (try split) <;> rfl
+theorem setLoopItems_rs (m : Mach) (c : Cell) : (m.setLoopItems c).2.rs = m.rs := by
+  simp only [setLoopItems]; split <;> (try split) <;> rfl
+theorem loopNext_rs (m : Mach) : m.loopNext.2.rs = m.rs := by
+  simp only [loopNext]; split <;> (try split) <;> rfl
+theorem popLoop_rs (m : Mach) : m.popLoop.2.rs = m.rs := by
+  simp only [popLoop]; split <;> (try split) <;> rfl
+
+theorem runProg_rs (p : Prog) : ∀ m : Mach, (runProg p m).2.rs = m.rs := by
+  induction p with
+  | done => intro m; rfl
+  | fail e => intro m; rfl
+  | panic s => intro m; rfl
+  | pop k ih =>
+    intro m; simp only [runProg]
+    have h1 := popData_rs m
+    rcases hp : m.popData with ⟨o, m1⟩
+    rw [hp] at h1
+    cases o with
+    | ok c => simp only []; rw [ih c m1, h1]
+    | err e => exact h1
+    | panic s => exact h1
+  | push c k ih =>
+    intro m; simp only [runProg]
+    have h1 := pushData_rs m c
+    rcases hp : m.pushData c with ⟨o, m1⟩
+    rw [hp] at h1
+    cases o with
+    | ok u => simp only []; rw [ih m1, h1]
+    | err e => exact h1
+    | panic s => exact h1
+  | top k ih =>
+    intro m; simp only [runProg]
+    have h1 := topData_rs m
+    rcases hp : m.topData with ⟨o, m1⟩
+    rw [hp] at h1
+    cases o with
+    | ok c => simp only []; rw [ih c m1, h1]
+    | err e => exact h1
+    | panic s => exact h1
+  | dup k ih =>
+    intro m; simp only [runProg]
+    have h1 := dupData_rs m
+    rcases hp : m.dupData with ⟨o, m1⟩
+    rw [hp] at h1
+    cases o with
+    | ok u => simp only []; rw [ih m1, h1]
+    | err e => exact h1
+    | panic s => exact h1
+  | swap k ih =>
+    intro m; simp only [runProg]
+    have h1 := swapData_rs m
+    rcases hp : m.swapData with ⟨o, m1⟩
+    rw [hp] at h1
+    cases o with
+    | ok u => simp only []; rw [ih m1, h1]
+    | err e => exact h1
+    | panic s => exact h1
+  | rot k ih =>
+    intro m; simp only [runProg]
+    have h1 := rotData_rs m
+    rcases hp : m.rotData with ⟨o, m1⟩
+    rw [hp] at h1
+    cases o with
+    | ok u => simp only []; rw [ih m1, h1]
+    | err e => exact h1
+    | panic s => exact h1
+  | over k ih =>
+    intro m; simp only [runProg]
+    have h1 := overData_rs m
+    rcases hp : m.overData with ⟨o, m1⟩
+    rw [hp] at h1
+    cases o with
+    | ok u => simp only []; rw [ih m1, h1]
+    | err e => exact h1
+    | panic s => exact h1
+  | depth k ih => intro m; simp only [runProg]; exact ih _ m
+  | rawLen k ih => intro m; simp only [runProg]; exact ih _ m
+  | rawFrom ptr k ih => intro m; simp only [runProg]; exact ih _ m
+  | getVar idx k ih =>
+    intro m; simp only [runProg]
+    split
+    · exact ih _ m
+    · rfl
+    · rfl
+  | setVar idx c k ih =>
+    intro m; simp only [runProg]
+    have h1 := swapCellRef_rs m idx c
+    rcases hp : m.swapCellRef idx c with ⟨o, m1⟩
+    rw [hp] at h1
+    cases o with
+    | ok u => simp only []; rw [ih m1, h1]
+    | err e => exact h1
+    | panic s => exact h1
+  | print s k ih => intro m; simp only [runProg]; rw [ih]
+  | pushSpecial p k ih => intro m; simp only [runProg]; rw [ih]; rfl
+  | popSpecial k ih =>
+    intro m; simp only [runProg]
+    rw [ih, popSpecial_rs]
+  | loopAt n k ih => intro m; simp only [runProg]; exact ih _ m
+  | setLoopItems c k ih =>
+    intro m; simp only [runProg]
+    have h1 := setLoopItems_rs m c
+    rcases hp : m.setLoopItems c with ⟨o, m1⟩
+    rw [hp] at h1
+    cases o with
+    | ok u => simp only []; rw [ih m1, h1]
+    | err e => exact h1
+    | panic s => exact h1
+  | stop k ih => intro m; simp only [runProg]; rw [ih]
+
+theorem popCond_rs (m : Mach) : (popCond m).2.rs = m.rs := by
+  unfold popCond
+  have h1 := popData_rs m
+  rcases hp : m.popData with ⟨o, m1⟩
+  rw [hp] at h1
+  cases o with
+  | ok c => simp only []; cases c.condTrue <;> exact h1
+  | err e => exact h1
+  | panic s => exact h1
+
+theorem caseTest_rs (m : Mach) : (caseTest m).2.rs = m.rs := by
+  unfold caseTest
+  have h1 := popData_rs m
+  rcases hp : m.popData with ⟨o, m1⟩
+  rw [hp] at h1
+  cases o with
+  | ok a =>
+    simp only []
+    have h2 := topData_rs m1
+    rcases ht : m1.topData with ⟨o2, m2⟩
+    rw [ht] at h2
+    cases o2 with
+    | ok b =>
+      simp only []
+      split
+      · have h3 := popData_rs m2
+        rcases hp2 : m2.popData with ⟨o3, m3⟩
+        rw [hp2] at h3
+        cases o3 <;> simp only [] <;> rw [h3, h2, h1]
+      · rw [h2, h1]
+    | err e => simp only []; rw [h2, h1]
+    | panic s => simp only []; rw [h2, h1]
+  | err e => exact h1
+  | panic s => exact h1
+
+theorem doInit_rs (m : Mach) : m.doInit.2.rs = m.rs := by
+  simp only [doInit]
+  have h1 := popData_rs m
+  rcases hp : m.popData with ⟨o, m1⟩
+  rw [hp] at h1
+  cases o with
+  | ok a =>
+    simp only []
+    have h2 := popData_rs m1
+    rcases hp2 : m1.popData with ⟨o2, m2⟩
+    rw [hp2] at h2
+    cases o2 with
+    | ok b =>
+      simp only []
+      cases a.toIsize <;> simp only [] <;> (try cases b.toIsize <;> simp only []) <;> rw [h2, h1]
+    | err e => simp only []; rw [h2, h1]
+    | panic p => simp only []; rw [h2, h1]
+  | err e => exact h1
+  | panic p => exact h1
+
+theorem straightEff_frames (np : String → Option Prog) (m : Mach) (o : Op) : SameFrames (straightEff np m o).2.rs m.rs := by
+  cases o <;> simp only [straightEff] <;> try exact SameFrames.refl _
+  case native name =>
+    cases hn : np name with
+    | none => exact SameFrames.refl _
+    | some p => exact SameFrames.of_eq (runProg_rs p m)
+  case loadStr s => exact SameFrames.of_eq (pushData_rs m _)
+  case loadF64 x => exact SameFrames.of_eq (pushData_rs m _)
+  case loadI64 x => exact SameFrames.of_eq (pushData_rs m _)
+  case loadNil => exact SameFrames.of_eq (pushData_rs m _)
+  case loadCell c => exact SameFrames.of_eq (pushData_rs m _)
+  case load idx =>
+    cases hc : m.cellRef idx with
+    | ok c => exact SameFrames.of_eq (pushData_rs m _)
+    | err e => exact SameFrames.refl _
+    | panic s => exact SameFrames.refl _
+  case store idx =>
+    have h1 := popData_rs m
+    rcases hp : m.popData with ⟨o1, m1⟩
+    rw [hp] at h1
+    cases o1 with
+    | ok v => simp only []; exact SameFrames.of_eq (by rw [swapCellRef_rs, h1])
+    | err e => exact SameFrames.of_eq h1
+    | panic s => exact SameFrames.of_eq h1
+  case initLocal idx =>
+    have h1 := popData_rs m
+    rcases hp : m.popData with ⟨o1, m1⟩
+    rw [hp] at h1
+    cases o1 with
+    | ok v =>
+      simp only []
+      cases hrs : m1.rs with
+      | nil => simp only []; exact SameFrames.of_eq h1
+      | cons f rest =>
+        simp only []
+        split
+        · simp only [logStep]
+          rw [← h1, hrs]
+          exact ⟨rfl, rfl, rfl⟩
+        · exact SameFrames.of_eq h1
+    | err e => exact SameFrames.of_eq h1
+    | panic s => exact SameFrames.of_eq h1
+  case loadLocal i =>
+    cases ht : m.topFrame with
+    | ok f =>
+      simp only []
+      cases hl : f.locals[i]? with
+      | some v => exact SameFrames.of_eq (pushData_rs m _)
+      | none => exact SameFrames.refl _
+    | err e => exact SameFrames.refl _
+    | panic s => exact SameFrames.refl _
+
+/-- the machine of a result that lets execution continue -/
+def Res.cont : Res → Option Mach
+  | .ok m | .brk _ m | .exitCase m => some m
+  | _ => none
+
+def KeepsFr (m : Mach) (r : Res) : Prop := ∀ m', r.cont = some m' → SameFrames m'.rs m.rs
+
+theorem keepsFr_ofR {α : Type} {m : Mach} (r : R α) (tok : Nat) (k : α → Mach → Res) (hr : SameFrames r.2.rs m.rs)
+    (hk : ∀ a m1, r = (.ok a, m1) → KeepsFr m1 (k a m1)) : KeepsFr m (ofR r tok k) := by
+  obtain ⟨o, m1⟩ := r
+  cases o with
+  | ok a => intro m' hm; exact (hk a m1 rfl m' hm).trans hr
+  | err e => intro m' hm; cases hm
+  | panic p => intro m' hm; cases hm
+
+theorem KeepsFr.trans_left {m m1 : Mach} {r : Res} (h1 : SameFrames m1.rs m.rs) (h2 : KeepsFr m1 r) : KeepsFr m r :=
+  fun m' hm => (h2 m' hm).trans h1
+
+theorem popReturn_ok (m m' : Mach) (f : Frame) (h : m.popReturn = (.ok f, m')) : m'.rs = m.rs.tail ∧ m.rs.head? = some f := by
+  simp only [popReturn] at h
+  split at h
+  · rename_i f0 rest hl
+    split at h
+    · cases h; simp [logStep, hl]
+    · cases h
+  · cases h
+
+/-- completion (and a travelling break, and a finished arm) leaves the return stack as it was, up to the
+    locals of the top frame -/
+theorem frames_aux (np : String → Option Prog) (F : FunTab) : ∀ f,
+    (∀ st m, KeepsFr m (evalS np F f st m)) ∧ (∀ tl a m, KeepsFr m (doIter np F f tl a m)) := by
+  intro f
+  induction f with
+  | zero => exact ⟨fun st m m' h => by simp [evalS, Res.cont] at h, fun tl a m m' h => by simp [doIter, Res.cont] at h⟩
+  | succ f ih =>
+    obtain ⟨ihE, ihD⟩ := ih
+    have okR : ∀ m : Mach, KeepsFr m (.ok m) := fun m m' h => by cases h; exact SameFrames.refl _
+    refine ⟨fun st m => ?_, fun tl a m => ?_⟩
+    · cases st with
+      | skip => simp only [evalS]; exact okR m
+      | op t o => simp only [evalS]; exact keepsFr_ofR _ _ _ (straightEff_frames np m o) (fun _ m1 _ => okR m1)
+      | seq a b =>
+        simp only [evalS]
+        have ha := ihE a m
+        generalize evalS np F f a m = ra at ha ⊢
+        cases ra with
+        | ok m1 => exact KeepsFr.trans_left (ha m1 rfl) (ihE b m1)
+        | err e t m1 => exact ha
+        | panic p t m1 => exact ha
+        | brk t m1 => exact ha
+        | exitCase m1 => exact ha
+        | timeout => exact ha
+      | ifThen t a =>
+        simp only [evalS]
+        exact keepsFr_ofR _ _ _ (SameFrames.of_eq (popCond_rs m)) (fun c m1 _ => by split; exact ihE a m1; exact okR m1)
+      | ifElse t te a b =>
+        simp only [evalS]
+        exact keepsFr_ofR _ _ _ (SameFrames.of_eq (popCond_rs m)) (fun c m1 _ => by split; exact ihE a m1; exact ihE b m1)
+      | untilLoop t a =>
+        simp only [evalS]
+        have ha := ihE a m
+        generalize evalS np F f a m = ra at ha ⊢
+        cases ra with
+        | ok m1 =>
+          refine KeepsFr.trans_left (ha m1 rfl) ?_
+          exact keepsFr_ofR _ _ _ (SameFrames.of_eq (popCond_rs m1)) (fun c m2 _ => by split; exact okR m2; exact ihE _ m2)
+        | err e t m1 => exact ha
+        | panic p t m1 => exact ha
+        | brk t m1 => exact ha
+        | exitCase m1 => exact ha
+        | timeout => exact ha
+      | whileLoop tw tr c a =>
+        simp only [evalS]
+        have hc := ihE c m
+        generalize evalS np F f c m = rc at hc ⊢
+        cases rc with
+        | ok m1 =>
+          refine KeepsFr.trans_left (hc m1 rfl) ?_
+          refine keepsFr_ofR _ _ _ (SameFrames.of_eq (popCond_rs m1)) (fun b m2 _ => ?_)
+          split
+          · have ha := ihE a m2
+            generalize evalS np F f a m2 = ra at ha ⊢
+            cases ra with
+            | ok m3 => exact KeepsFr.trans_left (ha m3 rfl) (ihE _ m3)
+            | brk t m3 => intro m' h; cases h; exact ha m3 rfl
+            | err e t m3 => exact ha
+            | panic p t m3 => exact ha
+            | exitCase m3 => exact ha
+            | timeout => exact ha
+          · exact okR m2
+        | err e t m1 => exact hc
+        | panic p t m1 => exact hc
+        | brk t m1 => exact hc
+        | exitCase m1 => exact hc
+        | timeout => exact hc
+      | repeatLoop tr a =>
+        simp only [evalS]
+        have ha := ihE a m
+        generalize evalS np F f a m = ra at ha ⊢
+        cases ra with
+        | ok m1 => exact KeepsFr.trans_left (ha m1 rfl) (ihE _ m1)
+        | brk t m1 => intro m' h; cases h; exact ha m1 rfl
+        | err e t m1 => exact ha
+        | panic p t m1 => exact ha
+        | exitCase m1 => exact ha
+        | timeout => exact ha
+      | doLoop td tl a =>
+        simp only [evalS]
+        refine keepsFr_ofR _ _ _ (SameFrames.of_eq (doInit_rs m)) (fun l m1 _ => ?_)
+        split
+        · exact KeepsFr.trans_left (SameFrames.refl _) (ihD tl a (m1.pushLoop l))
+        · exact okR m1
+      | brk t => simp only [evalS]; intro m' h; cases h; exact SameFrames.refl _
+      | caseS a =>
+        simp only [evalS]
+        have ha := ihE a m
+        generalize evalS np F f a m = ra at ha ⊢
+        cases ra with
+        | exitCase m1 => intro m' h; cases h; exact ha m1 rfl
+        | ok m1 => exact ha
+        | err e t m1 => exact ha
+        | panic p t m1 => exact ha
+        | brk t m1 => exact ha
+        | timeout => exact ha
+      | arm tOf tEndof body =>
+        simp only [evalS]
+        refine keepsFr_ofR _ _ _ (SameFrames.of_eq (caseTest_rs m)) (fun hit m1 _ => ?_)
+        split
+        · have hb := ihE body m1
+          generalize evalS np F f body m1 = rb at hb ⊢
+          cases rb with
+          | ok m2 => intro m' h; cases h; exact hb m2 rfl
+          | err e t m2 => exact hb
+          | panic p t m2 => exact hb
+          | brk t m2 => exact hb
+          | exitCase m2 => exact hb
+          | timeout => exact hb
+        · exact okR m1
+      | defn tc ts body => simp only [evalS]; exact okR m
+      | call t addr ret =>
+        simp only [evalS]
+        split
+        · rename_i body ts hFa
+          have hb := ihE body (m.pushReturn { fnAddr := addr, returnTo := ret, locals := [] })
+          generalize evalS np F f body (m.pushReturn { fnAddr := addr, returnTo := ret, locals := [] }) = rb at hb ⊢
+          cases rb with
+          | ok m2 =>
+            simp only [ofR]
+            have h2 := hb m2 rfl
+            rcases hp : m2.popReturn with ⟨o, m3⟩
+            cases o with
+            | ok fr =>
+              simp only []
+              intro m' h; cases h
+              have := (popReturn_ok m2 m3 fr hp).1
+              have h3 : m2.rs.tail = m.rs := by rw [h2.2.1]; simp [pushReturn, logStep]
+              exact SameFrames.of_eq (by rw [this, h3])
+            | err e => simp only []; intro m' h; cases h
+            | panic p => simp only []; intro m' h; cases h
+          | err e t m2 => intro m' h; cases h
+          | panic p t m2 => intro m' h; cases h
+          | brk t m2 => intro m' h; cases h
+          | exitCase m2 => intro m' h; cases h
+          | timeout => intro m' h; cases h
+        · intro m' h; cases h
+    · simp only [doIter]
+      have ha := ihE a m
+      generalize evalS np F f a m = ra at ha ⊢
+      cases ra with
+      | ok m1 =>
+        refine KeepsFr.trans_left (ha m1 rfl) ?_
+        refine keepsFr_ofR _ _ _ (SameFrames.of_eq (loopNext_rs m1)) (fun more m2 _ => ?_)
+        split
+        · exact ihD tl a m2
+        · exact keepsFr_ofR _ _ _ (SameFrames.of_eq (popLoop_rs m2)) (fun _ m3 _ m' h => by cases h; exact SameFrames.refl _)
+      | brk tb m1 =>
+        refine KeepsFr.trans_left (ha m1 rfl) ?_
+        exact keepsFr_ofR _ _ _ (SameFrames.of_eq (popLoop_rs m1)) (fun _ m3 _ m' h => by cases h; exact SameFrames.refl _)
+      | err e t m1 => exact ha
+      | panic p t m1 => exact ha
+      | exitCase m1 => exact ha
+      | timeout => exact ha
 
 /-! ### the simulation -/
 
@@ -892,31 +1479,114 @@ def isLoop : Stmt → Bool
   | .untilLoop .. | .whileLoop .. | .repeatLoop .. | .doLoop .. => true
   | _ => false
 
+/-- the function table describes the code: at every entry address sits the compiled body followed by `Ret`,
+    the body is well-formed and its calls carry the right return addresses -/
+def FunsOK (code : List Op) (dmap : List Nat) (F : FunTab) : Prop :=
+  ∀ addr body ts, F addr = some (body, ts) →
+    CodeAt code dmap addr (compileS body BK.none none ++ [(Op.ret, ts)]) ∧ WFS body false false = true ∧ placed F body addr = true
+
+/-- the definitions found in the tree sit in the code where the table says -/
+theorem funsOf_ok (F : FunTab) (code : List Op) (dmap : List Nat) : ∀ (st : Stmt) (bk : BK) (ce : Option Nat) (pc : Nat) (k r : Bool),
+    CodeAt code dmap pc (compileS st bk ce) → WFS st k r = true → placed F st pc = true →
+    ∀ e ∈ funsOf st pc, CodeAt code dmap e.1 (compileS e.2.1 BK.none none ++ [(Op.ret, e.2.2)]) ∧
+      WFS e.2.1 false false = true ∧ placed F e.2.1 e.1 = true := by
+  intro st
+  induction st with
+  | skip => intro bk ce pc k r _ _ _ e he; simp [funsOf] at he
+  | op t o => intro bk ce pc k r _ _ _ e he; simp [funsOf] at he
+  | brk t => intro bk ce pc k r _ _ _ e he; simp [funsOf] at he
+  | call t a rt => intro bk ce pc k r _ _ _ e he; simp [funsOf] at he
+  | seq a b iha ihb =>
+    intro bk ce pc k r hc hw hp e he
+    simp only [compileS] at hc
+    simp only [WFS, Bool.and_eq_true] at hw
+    simp only [placed, Bool.and_eq_true] at hp
+    simp only [funsOf, List.mem_append] at he
+    rcases he with he | he
+    · exact iha _ _ pc k r hc.left hw.1 hp.1 e he
+    · have := hc.right; rw [compileS_length] at this
+      exact ihb _ _ _ k r this hw.2 hp.2 e he
+  | ifThen t a ih =>
+    intro bk ce pc k r hc hw hp e he
+    simp only [compileS] at hc; simp only [WFS] at hw; simp only [placed] at hp; simp only [funsOf] at he
+    exact ih _ _ _ k false hc.tail hw hp e he
+  | ifElse t te a b iha ihb =>
+    intro bk ce pc k r hc hw hp e he
+    simp only [compileS] at hc
+    simp only [WFS, Bool.and_eq_true] at hw
+    simp only [placed, Bool.and_eq_true] at hp
+    simp only [funsOf, List.mem_append] at he
+    rcases he with he | he
+    · exact iha _ _ _ k false hc.tail.left hw.1 hp.1 e he
+    · have := hc.tail.right; rw [compileS_length] at this
+      exact ihb _ _ _ k false this.tail hw.2 hp.2 e he
+  | untilLoop t a ih =>
+    intro bk ce pc k r hc hw hp e he
+    simp only [compileS] at hc; simp only [WFS] at hw; simp only [placed] at hp; simp only [funsOf] at he
+    exact ih _ _ _ false false hc.left hw hp e he
+  | whileLoop tw tr c a ihc iha =>
+    intro bk ce pc k r hc hw hp e he
+    simp only [compileS] at hc
+    simp only [WFS, Bool.and_eq_true] at hw
+    simp only [placed, Bool.and_eq_true] at hp
+    simp only [funsOf, List.mem_append] at he
+    rcases he with he | he
+    · exact ihc _ _ _ false false hc.left.left hw.1 hp.1 e he
+    · have := hc.left.right; rw [compileS_length] at this
+      exact iha _ _ _ true false this.tail hw.2 hp.2 e he
+  | repeatLoop tr a ih =>
+    intro bk ce pc k r hc hw hp e he
+    simp only [compileS] at hc; simp only [WFS] at hw; simp only [placed] at hp; simp only [funsOf] at he
+    exact ih _ _ _ true false hc.left hw hp e he
+  | doLoop td tl a ih =>
+    intro bk ce pc k r hc hw hp e he
+    simp only [compileS] at hc; simp only [WFS] at hw; simp only [placed] at hp; simp only [funsOf] at he
+    exact ih _ _ _ true false hc.tail.left hw hp e he
+  | caseS a ih =>
+    intro bk ce pc k r hc hw hp e he
+    simp only [compileS] at hc; simp only [WFS] at hw; simp only [placed] at hp; simp only [funsOf] at he
+    exact ih _ _ _ k true hc hw hp e he
+  | arm tOf tEndof body ih =>
+    intro bk ce pc k r hc hw hp e he
+    simp only [compileS] at hc
+    simp only [WFS, Bool.and_eq_true] at hw
+    simp only [placed] at hp; simp only [funsOf] at he
+    exact ih _ _ _ k false hc.tail.left hw.2 hp e he
+  | defn tc ts body ih =>
+    intro bk ce pc k r hc hw hp e he
+    simp only [compileS] at hc; simp only [WFS] at hw; simp only [placed] at hp
+    simp only [funsOf, List.mem_cons] at he
+    rcases he with rfl | he
+    · exact ⟨hc.tail, hw, hp⟩
+    · exact ih _ _ _ false false hc.tail.left hw hp e he
+
 section main
-variable (np : String → Option Prog) (code : List Op) (dmap : List Nat) (hlen : code.length < 2^62)
-include hlen
+variable (np : String → Option Prog) (F : FunTab) (code : List Op) (dmap : List Nat) (hlen : code.length < 2^62)
+  (hF : FunsOK code dmap F)
+include hlen hF
 
 /-- statement for statements -/
 def SimStmt (f : Nat) : Prop :=
   ∀ (st : Stmt) (bk : BK) (ce : Option Nat) (pc : Nat) (mv ms : Mach), VOK code mv → Rel mv ms → mv.ctx.ip = pc →
     CodeAt code dmap pc (compileS st bk ce) → WFS st (bk != BK.none) ce.isSome = true → BKOk code bk (pc + size st) →
-    pc + size st + ce.getD 0 ≤ code.length →
-    SimT np code dmap mv (pc + size st) bk (pc + size st + ce.getD 0) (evalS np f st ms)
+    pc + size st + ce.getD 0 ≤ code.length → placed F st pc = true →
+    SimT np code dmap mv (pc + size st) bk (pc + size st + ce.getD 0) (evalS np F f st ms)
 
 /-- statement for the iterations of a counted loop: the VM stands at the first opcode of the body (`pc + 1`),
     the loop record is pushed; when the evaluator is done the VM is behind the `Loop` opcode -/
 def SimIter (f : Nat) : Prop :=
   ∀ (td tl : Nat) (a : Stmt) (bk : BK) (ce : Option Nat) (pc : Nat) (mv ms : Mach), VOK code mv → Rel mv ms →
     mv.ctx.ip = pc + 1 → CodeAt code dmap pc (compileS (.doLoop td tl a) bk ce) → WFS a true false = true →
-    SimT np code dmap mv (pc + size a + 2) BK.none 0 (doIter np f tl a ms)
+    placed F a (pc + 1) = true →
+    SimT np code dmap mv (pc + size a + 2) BK.none 0 (doIter np F f tl a ms)
 
-theorem sim_acyclic (f : Nat) (ihE : SimStmt np code dmap f) (ihD : SimIter np code dmap f)
+theorem sim_acyclic (f : Nat) (ihE : SimStmt np F code dmap f) (ihD : SimIter np F code dmap f)
     (st : Stmt) (bk : BK) (ce : Option Nat) (pc : Nat) (mv ms : Mach) (v : VOK code mv) (hr : Rel mv ms)
     (hip : mv.ctx.ip = pc) (hc : CodeAt code dmap pc (compileS st bk ce))
     (hw : WFS st (bk != BK.none) ce.isSome = true) (hbk : BKOk code bk (pc + size st))
-    (hend : pc + size st + ce.getD 0 ≤ code.length)
+    (hend : pc + size st + ce.getD 0 ≤ code.length) (hpl : placed F st pc = true)
     (hacyc : isLoop st = false) :
-    SimT np code dmap mv (pc + size st) bk (pc + size st + ce.getD 0) (evalS np (f + 1) st ms) := by
+    SimT np code dmap mv (pc + size st) bk (pc + size st + ce.getD 0) (evalS np F (f + 1) st ms) := by
   cases st with
   | skip =>
     simp only [evalS, size, Nat.add_zero]
@@ -932,20 +1602,21 @@ theorem sim_acyclic (f : Nat) (ihE : SimStmt np code dmap f) (ihD : SimIter np c
   | seq a b =>
     simp only [evalS, size]
     simp only [WFS, Bool.and_eq_true] at hw
+    simp only [placed, Bool.and_eq_true] at hpl
     simp only [compileS] at hc
     have hla := compileS_length a (bk.shift (size b)) (ce.map (· + size b))
     have ha := ihE a (bk.shift (size b)) (ce.map (· + size b)) pc mv ms v hr hip hc.left
       (by rw [shift_ne_none]; simpa using hw.1) (BKOk.shift (by simpa [size, Nat.add_assoc] using hbk))
-      (by cases ce <;> simp [size] at hend ⊢ <;> omega)
+      (by cases ce <;> simp [size] at hend ⊢ <;> omega) hpl.1
     have hcb : CodeAt code dmap (pc + size a) (compileS b bk ce) := by have := hc.right; rwa [hla] at this
     -- what the first part returns decides
-    generalize hra : evalS np f a ms = ra at ha
+    generalize hra : evalS np F f a ms = ra at ha
     cases ra with
     | ok ms1 =>
       simp only
       have := SimT.after (E := pc + size a + size b) (bk := bk) (cend := pc + size a + size b + ce.getD 0)
-        (evalS np f b ms1) ha (fun mv1 e1 r1 v1 => ihE b bk ce (pc + size a) mv1 ms1 v1 r1 e1 hcb hw.2 (by simpa [size, Nat.add_assoc] using hbk)
-          (by simp [size] at hend; omega))
+        (evalS np F f b ms1) ha (fun mv1 e1 r1 v1 => ihE b bk ce (pc + size a) mv1 ms1 v1 r1 e1 hcb hw.2 (by simpa [size, Nat.add_assoc] using hbk)
+          (by simp [size] at hend; omega) hpl.2)
       simpa [Nat.add_assoc] using this
     | err e tok m => exact ha
     | panic p tok m => exact ha
@@ -957,7 +1628,7 @@ theorem sim_acyclic (f : Nat) (ihE : SimStmt np code dmap f) (ihD : SimIter np c
       cases ce with
       | none =>
         -- no arm outside the spine of a `case`
-        exact absurd hra ((no_exit_aux np f).1 a ms _ (by simpa using hw.1) m)
+        exact absurd hra ((no_exit_aux np F f).1 a ms _ (by simpa using hw.1) m)
       | some c =>
         simp only [Option.map, Option.getD] at ha ⊢
         have : pc + size a + (c + size b) = pc + (size a + size b) + c := by omega
@@ -978,11 +1649,11 @@ theorem sim_acyclic (f : Nat) (ihE : SimStmt np code dmap f) (ihD : SimIter np c
       cases b with
       | true =>
         simp only [ofR, if_true] at h1 ⊢
-        have := SimT.after (evalS np f a m1) h1 (fun mv1 e1 r1 v1 =>
+        have := SimT.after (evalS np F f a m1) h1 (fun mv1 e1 r1 v1 =>
           ihE a bk none (pc + 1) mv1 m1 v1 r1 e1 hc.tail (by simpa using hw) (by simpa [size, hE] using hbk)
-            (by simp [size] at hend ⊢; omega))
+            (by simp [size] at hend ⊢; omega) (by simpa [placed] using hpl))
         rw [hE]
-        exact SimT.recend ((no_exit_aux np f).1 a m1 _ (by simpa using hw)) this
+        exact SimT.recend ((no_exit_aux np F f).1 a m1 _ (by simpa using hw)) this
       | false =>
         simp only [ofR] at h1 ⊢
         have hj : calcJump pc (↑(size a) + 1) = pc + (1 + size a) :=
@@ -1013,11 +1684,12 @@ theorem sim_acyclic (f : Nat) (ihE : SimStmt np code dmap f) (ihD : SimIter np c
       cases c with
       | true =>
         simp only [ofR, if_true] at h1 ⊢
-        have hra := SimT.after (evalS np f a m1) h1 (fun mv1 e1 r1 v1 =>
+        have hra := SimT.after (evalS np F f a m1) h1 (fun mv1 e1 r1 v1 =>
           ihE a (bk.shift (1 + size b)) none (pc + 1) mv1 m1 v1 r1 e1 hca (by rw [shift_ne_none]; simpa using hw.1)
-            (BKOk.shift (by simpa [size, hE, Nat.add_assoc] using hbk)) (by simp; omega))
-        have hne := (no_exit_aux np f).1 a m1 _ (by simpa using hw.1)
-        generalize evalS np f a m1 = ra at hra hne ⊢
+            (BKOk.shift (by simpa [size, hE, Nat.add_assoc] using hbk)) (by simp; omega)
+            (by simp only [placed, Bool.and_eq_true] at hpl; exact hpl.1))
+        have hne := (no_exit_aux np F f).1 a m1 _ (by simpa using hw.1)
+        generalize evalS np F f a m1 = ra at hra hne ⊢
         rw [hE]
         cases ra with
         | ok m2 =>
@@ -1039,11 +1711,11 @@ theorem sim_acyclic (f : Nat) (ihE : SimStmt np code dmap f) (ihD : SimIter np c
         have hj : calcJump pc (↑(size a) + 2) = pc + 1 + size a + 1 :=
           (calcJump_fwd' pc (size a + 2) _ (by omega) (by omega)).trans (by omega)
         rw [hj] at h1
-        have := SimT.after (evalS np f b m1) h1 (fun mv1 e1 r1 v1 =>
+        have := SimT.after (evalS np F f b m1) h1 (fun mv1 e1 r1 v1 =>
           ihE b bk none (pc + 1 + size a + 1) mv1 m1 v1 r1 e1 hcb (by simpa using hw.2) (by simpa [size, hE] using hbk)
-            (by simp; omega))
+            (by simp; omega) (by simp only [placed, Bool.and_eq_true] at hpl; exact hpl.2))
         rw [hE]
-        exact SimT.recend ((no_exit_aux np f).1 b m1 _ (by simpa using hw.2)) this
+        exact SimT.recend ((no_exit_aux np F f).1 b m1 _ (by simpa using hw.2)) this
     | err e => exact h1
     | panic p => exact h1
   | brk t =>
@@ -1065,8 +1737,8 @@ theorem sim_acyclic (f : Nat) (ihE : SimStmt np code dmap f) (ihD : SimIter np c
     simp only [WFS] at hw
     simp only [compileS] at hc
     have ha := ihE a bk (some 0) pc mv ms v hr hip hc (by simpa using hw) (by simpa [size] using hbk)
-      (by simp [size] at hend ⊢; omega)
-    generalize evalS np f a ms = ra at ha ⊢
+      (by simp [size] at hend ⊢; omega) (by simpa [placed] using hpl)
+    generalize evalS np F f a ms = ra at ha ⊢
     cases ra with
     | exitCase m => simpa [SimT] using ha
     | ok m => exact ha
@@ -1095,11 +1767,11 @@ theorem sim_acyclic (f : Nat) (ihE : SimStmt np code dmap f) (ihD : SimIter np c
       cases hit with
       | true =>
         simp only [ofR, if_true] at h1 ⊢
-        have hra := SimT.after (evalS np f body m1) h1 (fun mv1 e1 r1 v1 =>
+        have hra := SimT.after (evalS np F f body m1) h1 (fun mv1 e1 r1 v1 =>
           ihE body (bk.shift 1) none (pc + 1) mv1 m1 v1 r1 e1 hcb (by rw [shift_ne_none]; simpa using hw.2)
-            (BKOk.shift (by simpa [size, hE] using hbk)) (by simp; omega))
-        have hne := (no_exit_aux np f).1 body m1 _ (by simpa using hw.2)
-        generalize evalS np f body m1 = ra at hra hne ⊢
+            (BKOk.shift (by simpa [size, hE] using hbk)) (by simp; omega) (by simpa [placed] using hpl))
+        have hne := (no_exit_aux np F f).1 body m1 _ (by simpa using hw.2)
+        generalize evalS np F f body m1 = ra at hra hne ⊢
         rw [hE]
         cases ra with
         | ok m2 =>
@@ -1126,18 +1798,76 @@ theorem sim_acyclic (f : Nat) (ihE : SimStmt np code dmap f) (ihD : SimIter np c
         exact h1
     | err e => exact h1
     | panic p => exact h1
+  | defn tc ts body =>
+    simp only [evalS, size]
+    simp only [compileS] at hc
+    have hlb := compileS_length body BK.none none
+    have hb : pc + 1 + size body < code.length := by
+      have := hc.bound (1 + size body) (by simp [hlb]; omega); omega
+    have hj := one_jump np v hr hip hc.head.1
+    have : calcJump pc (↑(size body) + 2) = pc + (1 + size body + 1) :=
+      (calcJump_fwd' pc (size body + 2) _ (by omega) (by omega)).trans (by omega)
+    rw [this] at hj
+    exact hj
+  | call t addr ret =>
+    simp only [placed, Bool.and_eq_true, beq_iff_eq] at hpl
+    obtain ⟨hret, hsome⟩ := hpl
+    simp only [evalS, size]
+    simp only [compileS] at hc
+    obtain ⟨⟨body, ts⟩, hFa⟩ := Option.isSome_iff_exists.mp hsome
+    obtain ⟨hcf, hwf, hplf⟩ := hF addr body ts hFa
+    simp only [hFa]
+    subst hret
+    have hlb := compileS_length body BK.none none
+    have hcb : CodeAt code dmap addr (compileS body BK.none none) := hcf.left
+    have hcr := (by have := hcf.right; rwa [hlb] at this : CodeAt code dmap (addr + size body) [(Op.ret, ts)]).head
+    have hbb : addr + size body < code.length := by
+      have := hcf.bound (size body) (by simp [hlb]); exact this
+    have hcall := one_call np v hr hip hc.head.1
+    have hfr := (frames_aux np F f).1 body (ms.pushReturn { fnAddr := addr, returnTo := pc + 1, locals := [] })
+    have hnb := (no_brk_aux np F f).1 body (ms.pushReturn { fnAddr := addr, returnTo := pc + 1, locals := [] }) false hwf
+    have hne := (no_exit_aux np F f).1 body (ms.pushReturn { fnAddr := addr, returnTo := pc + 1, locals := [] }) false hwf
+    have hbody := SimT.after (E := addr + size body) (bk := BK.none) (cend := addr + size body + 0)
+      (evalS np F f body (ms.pushReturn { fnAddr := addr, returnTo := pc + 1, locals := [] })) hcall
+      (fun mv1 e1 r1 v1 => ihE body BK.none none addr mv1 _ v1 r1 e1 hcb (by simpa using hwf) trivial (by simp; omega) hplf)
+    generalize evalS np F f body (ms.pushReturn { fnAddr := addr, returnTo := pc + 1, locals := [] }) = rb at hfr hnb hne hbody ⊢
+    cases rb with
+    | ok m2 =>
+      simp only
+      refine SimT.after _ hbody (fun mv2 e2 r2 v2 => ?_)
+      have h1 := one_ret np (dmap := dmap) v2 r2 e2 hcr.1 hcr.2
+      have hsf := hfr m2 rfl
+      rcases hp : m2.popReturn with ⟨o, m3⟩
+      rw [hp] at h1
+      cases o with
+      | ok fr =>
+        simp only [ofR] at h1 ⊢
+        -- the frame `;` pops is the one the call pushed: its return address is the opcode after the call
+        have hhd := (popReturn_ok m2 m3 fr hp).2
+        have := hsf.2.2
+        rw [hhd] at this
+        simp [pushReturn, logStep] at this
+        rw [this.2] at h1
+        exact h1
+      | err e => exact h1
+      | panic p => exact h1
+    | err e tok m2 => exact hbody
+    | panic p tok m2 => exact hbody
+    | brk t2 m2 => exact absurd rfl (hnb t2 m2)
+    | exitCase m2 => exact absurd rfl (hne m2)
+    | timeout => trivial
   | untilLoop t a => simp [isLoop] at hacyc
   | whileLoop tw tr c a => simp [isLoop] at hacyc
   | repeatLoop tr a => simp [isLoop] at hacyc
   | doLoop td tl a => simp [isLoop] at hacyc
 
-theorem sim_loops (f : Nat) (ihE : SimStmt np code dmap f) (ihD : SimIter np code dmap f)
+theorem sim_loops (f : Nat) (ihE : SimStmt np F code dmap f) (ihD : SimIter np F code dmap f)
     (st : Stmt) (bk : BK) (ce : Option Nat) (pc : Nat) (mv ms : Mach) (v : VOK code mv) (hr : Rel mv ms)
     (hip : mv.ctx.ip = pc) (hc : CodeAt code dmap pc (compileS st bk ce))
     (hw : WFS st (bk != BK.none) ce.isSome = true) (hbk : BKOk code bk (pc + size st))
-    (hend : pc + size st + ce.getD 0 ≤ code.length)
+    (hend : pc + size st + ce.getD 0 ≤ code.length) (hpl : placed F st pc = true)
     (hloop : isLoop st = true) :
-    SimT np code dmap mv (pc + size st) bk (pc + size st + ce.getD 0) (evalS np (f + 1) st ms) := by
+    SimT np code dmap mv (pc + size st) bk (pc + size st + ce.getD 0) (evalS np F (f + 1) st ms) := by
   cases st with
   | untilLoop t a =>
     have hw0 := hw; have hc0 := hc
@@ -1147,9 +1877,9 @@ theorem sim_loops (f : Nat) (ihE : SimStmt np code dmap f) (ihD : SimIter np cod
     have hla := compileS_length a BK.none none
     have hcj := (by have := hc.right; rwa [hla] at this : CodeAt code dmap (pc + size a) [(Op.jumpIfNot (-(size a : Int)), t)]).head
     have hb : pc + size a < code.length := by have := hc.bound (size a) (by simp [hla]); exact this
-    have ha := ihE a BK.none none pc mv ms v hr hip hc.left (by simpa using hw) trivial (by simp; omega)
-    have hne := (no_exit_aux np f).1 a ms _ hw
-    generalize evalS np f a ms = ra at ha hne ⊢
+    have ha := ihE a BK.none none pc mv ms v hr hip hc.left (by simpa using hw) trivial (by simp; omega) (by simpa [placed] using hpl)
+    have hne := (no_exit_aux np F f).1 a ms _ hw
+    generalize evalS np F f a ms = ra at ha hne ⊢
     cases ra with
     | ok m1 =>
       simp only
@@ -1167,7 +1897,7 @@ theorem sim_loops (f : Nat) (ihE : SimStmt np code dmap f) (ihD : SimIter np cod
             (calcJump_back' _ (size a) _ rfl (by omega) (by omega)).trans (by omega)
           rw [hj] at h1
           exact SimT.after _ h1 (fun mv2 e2 r2 v2 => by
-            have := ihE (.untilLoop t a) bk ce pc mv2 m2 v2 r2 e2 hc0 hw0 hbk hend
+            have := ihE (.untilLoop t a) bk ce pc mv2 m2 v2 r2 e2 hc0 hw0 hbk hend hpl
             simpa [size] using this)
       | err e => exact h1
       | panic p => exact h1
@@ -1184,9 +1914,9 @@ theorem sim_loops (f : Nat) (ihE : SimStmt np code dmap f) (ihD : SimIter np cod
     have hla := compileS_length a (BK.jump 1) none
     have hcj := (by have := hc.right; rwa [hla] at this : CodeAt code dmap (pc + size a) [(Op.jump (-(size a : Int)), tr)]).head
     have hb : pc + size a < code.length := by have := hc.bound (size a) (by simp [hla]); exact this
-    have ha := ihE a (BK.jump 1) none pc mv ms v hr hip hc.left (by exact hw) (by simp only [BKOk]; omega) (by simp; omega)
-    have hne := (no_exit_aux np f).1 a ms _ hw
-    generalize evalS np f a ms = ra at ha hne ⊢
+    have ha := ihE a (BK.jump 1) none pc mv ms v hr hip hc.left (by exact hw) (by simp only [BKOk]; omega) (by simp; omega) (by simpa [placed] using hpl)
+    have hne := (no_exit_aux np F f).1 a ms _ hw
+    generalize evalS np F f a ms = ra at ha hne ⊢
     cases ra with
     | ok m1 =>
       simp only
@@ -1196,7 +1926,7 @@ theorem sim_loops (f : Nat) (ihE : SimStmt np code dmap f) (ihD : SimIter np cod
         (calcJump_back' _ (size a) _ rfl (by omega) (by omega)).trans (by omega)
       rw [this] at hj
       exact SimT.after _ hj (fun mv2 e2 r2 v2 => by
-        have := ihE (.repeatLoop tr a) bk ce pc mv2 m1 v2 r2 e2 hc0 hw0 hbk hend
+        have := ihE (.repeatLoop tr a) bk ce pc mv2 m1 v2 r2 e2 hc0 hw0 hbk hend hpl
         simpa [size] using this)
     | err e tok m => exact ha
     | panic p tok m => exact ha
@@ -1228,9 +1958,11 @@ theorem sim_loops (f : Nat) (ihE : SimStmt np code dmap f) (ihD : SimIter np cod
     have hb : pc + size c + 1 + size a < code.length := by
       have := hc.bound (size c + 1 + size a) (by simp [hlc, hla]; omega); omega
     have hE : pc + (size c + 1 + size a + 1) = pc + size c + 1 + size a + 1 := by omega
-    have hcn := ihE c BK.none none pc mv ms v hr hip hcc (by simpa using hw.1) trivial (by simp; omega)
-    have hnec := (no_exit_aux np f).1 c ms _ hw.1
-    generalize evalS np f c ms = rc at hcn hnec ⊢
+    have hpl0 := hpl
+    simp only [placed, Bool.and_eq_true] at hpl
+    have hcn := ihE c BK.none none pc mv ms v hr hip hcc (by simpa using hw.1) trivial (by simp; omega) hpl.1
+    have hnec := (no_exit_aux np F f).1 c ms _ hw.1
+    generalize evalS np F f c ms = rc at hcn hnec ⊢
     rw [hE]
     cases rc with
     | ok m1 =>
@@ -1246,9 +1978,9 @@ theorem sim_loops (f : Nat) (ihE : SimStmt np code dmap f) (ihD : SimIter np cod
           simp only [ofR, if_true] at h1 ⊢
           refine SimT.after _ h1 (fun mv2 e2 r2 v2 => ?_)
           have ha := ihE a (BK.jump 1) none (pc + size c + 1) mv2 m2 v2 r2 e2 hca (by exact hw.2)
-            (by simp only [BKOk]; omega) (by simp; omega)
-          have hne := (no_exit_aux np f).1 a m2 _ hw.2
-          generalize evalS np f a m2 = ra at ha hne ⊢
+            (by simp only [BKOk]; omega) (by simp; omega) hpl.2
+          have hne := (no_exit_aux np F f).1 a m2 _ hw.2
+          generalize evalS np F f a m2 = ra at ha hne ⊢
           cases ra with
           | ok m3 =>
             simp only
@@ -1258,7 +1990,7 @@ theorem sim_loops (f : Nat) (ihE : SimStmt np code dmap f) (ihD : SimIter np cod
               (calcJump_back' _ (size c + 1 + size a) _ rfl (by omega) (by omega)).trans (by omega)
             rw [this] at hj
             exact SimT.after _ hj (fun mv4 e4 r4 v4 => by
-              have := ihE (.whileLoop tw tr c a) bk ce pc mv4 m3 v4 r4 e4 hc0 hw0 hbk hend
+              have := ihE (.whileLoop tw tr c a) bk ce pc mv4 m3 v4 r4 e4 hc0 hw0 hbk hend hpl0
               simpa [size, hE] using this)
           | err e tok m => exact ha
           | panic p tok m => exact ha
@@ -1301,10 +2033,10 @@ theorem sim_loops (f : Nat) (ihE : SimStmt np code dmap f) (ihD : SimIter np cod
       simp only [ofR] at h1 ⊢
       by_cases hl : l.start < l.stop
       · simp only [hl, if_true] at h1 ⊢
-        have := SimT.after (E := pc + size a + 2) (bk := BK.none) (cend := 0) (doIter np f tl a (m1.pushLoop l)) h1
-          (fun mv1 e1 r1 v1 => ihD td tl a bk ce pc mv1 (m1.pushLoop l) v1 r1 e1 hc0 hw)
-        have hne := (no_exit_aux np f).2 tl a (m1.pushLoop l) hw
-        generalize doIter np f tl a (m1.pushLoop l) = rd at this hne ⊢
+        have := SimT.after (E := pc + size a + 2) (bk := BK.none) (cend := 0) (doIter np F f tl a (m1.pushLoop l)) h1
+          (fun mv1 e1 r1 v1 => ihD td tl a bk ce pc mv1 (m1.pushLoop l) v1 r1 e1 hc0 hw (by simpa [placed] using hpl))
+        have hne := (no_exit_aux np F f).2 tl a (m1.pushLoop l) hw
+        generalize doIter np F f tl a (m1.pushLoop l) = rd at this hne ⊢
         cases rd with
         | ok m => exact this
         | err e tok m => exact this
@@ -1327,9 +2059,11 @@ theorem sim_loops (f : Nat) (ihE : SimStmt np code dmap f) (ihD : SimIter np cod
   | brk t => simp [isLoop] at hloop
   | caseS a => simp [isLoop] at hloop
   | arm tOf tEndof body => simp [isLoop] at hloop
+  | defn tc ts body => simp [isLoop] at hloop
+  | call t addr ret => simp [isLoop] at hloop
 
-theorem sim_iter (f : Nat) (ihE : SimStmt np code dmap f) (ihD : SimIter np code dmap f) : SimIter np code dmap (f + 1) := by
-  intro td tl a bk ce pc mv ms v hr hip hc hw
+theorem sim_iter (f : Nat) (ihE : SimStmt np F code dmap f) (ihD : SimIter np F code dmap f) : SimIter np F code dmap (f + 1) := by
+  intro td tl a bk ce pc mv ms v hr hip hc hw hpl
   have hc0 := hc
   simp only [compileS] at hc
   have hla := compileS_length a (BK.loop 1) none
@@ -1338,9 +2072,9 @@ theorem sim_iter (f : Nat) (ihE : SimStmt np code dmap f) (ihD : SimIter np code
   have hb : pc + 1 + size a < code.length := by
     have := hc.bound (1 + size a) (by simp [hla]; omega); omega
   simp only [doIter]
-  have ha := ihE a (BK.loop 1) none (pc + 1) mv ms v hr hip hca (by exact hw) (by simp only [BKOk]; omega) (by simp; omega)
-  have hne := (no_exit_aux np f).1 a ms _ hw
-  generalize evalS np f a ms = ra at ha hne ⊢
+  have ha := ihE a (BK.loop 1) none (pc + 1) mv ms v hr hip hca (by exact hw) (by simp only [BKOk]; omega) (by simp; omega) hpl
+  have hne := (no_exit_aux np F f).1 a ms _ hw
+  generalize evalS np F f a ms = ra at ha hne ⊢
   cases ra with
   | ok m1 =>
     simp only
@@ -1356,7 +2090,7 @@ theorem sim_iter (f : Nat) (ihE : SimStmt np code dmap f) (ihD : SimIter np code
         have hj : calcJump (pc + 1 + size a) (-(size a : Int)) = pc + 1 :=
           (calcJump_back' _ (size a) _ rfl (by omega) (by omega)).trans (by omega)
         rw [hj] at h1
-        exact SimT.after _ h1 (fun mv2 e2 r2 v2 => ihD td tl a bk ce pc mv2 m2 v2 r2 e2 hc0 hw)
+        exact SimT.after _ h1 (fun mv2 e2 r2 v2 => ihD td tl a bk ce pc mv2 m2 v2 r2 e2 hc0 hw hpl)
       | false =>
         simp only [ofR] at h1 ⊢
         generalize m2.popLoop = r2 at h1 ⊢
@@ -1394,18 +2128,18 @@ theorem sim_iter (f : Nat) (ihE : SimStmt np code dmap f) (ihD : SimIter np code
     running the compiled fragment does the same — it reaches the end of the fragment in an agreeing state, or
     stands on the compiled `break`, or behind the `endof` jump, or fails at the instruction of the same token
     with the same error in an agreeing state -/
-theorem sim_all : ∀ f, SimStmt np code dmap f ∧ SimIter np code dmap f := by
+theorem sim_all : ∀ f, SimStmt np F code dmap f ∧ SimIter np F code dmap f := by
   intro f
   induction f with
   | zero =>
-    exact ⟨fun st bk ce pc mv ms _ _ _ _ _ _ _ => by simp only [evalS]; trivial,
-           fun td tl a bk ce pc mv ms _ _ _ _ _ => by simp only [doIter]; trivial⟩
+    exact ⟨fun st bk ce pc mv ms _ _ _ _ _ _ _ _ => by simp only [evalS]; trivial,
+           fun td tl a bk ce pc mv ms _ _ _ _ _ _ => by simp only [doIter]; trivial⟩
   | succ f ih =>
     obtain ⟨ihE, ihD⟩ := ih
-    refine ⟨fun st bk ce pc mv ms v hr hip hc hw hbk hend => ?_, sim_iter np code dmap hlen f ihE ihD⟩
+    refine ⟨fun st bk ce pc mv ms v hr hip hc hw hbk hend hpl => ?_, sim_iter np F code dmap hlen hF f ihE ihD⟩
     by_cases hl : isLoop st = true
-    · exact sim_loops np code dmap hlen f ihE ihD st bk ce pc mv ms v hr hip hc hw hbk hend hl
-    · exact sim_acyclic np code dmap hlen f ihE ihD st bk ce pc mv ms v hr hip hc hw hbk hend (by simpa using hl)
+    · exact sim_loops np F code dmap hlen hF f ihE ihD st bk ce pc mv ms v hr hip hc hw hbk hend hpl hl
+    · exact sim_acyclic np F code dmap hlen hF f ihE ihD st bk ce pc mv ms v hr hip hc hw hbk hend hpl (by simpa using hl)
 
 end main
 
